@@ -40,6 +40,14 @@ void harness(void) {
 	VF_ASSUME(n <= VF_XML_SRC_MAX);
 	VF_EXACT8(s, n)
 	size_t i, k, pos, enc_len = 0, dec_len = 0, spec_len = 0;
+#if defined(VF_XML_ALPHABET) && VF_XML_ALPHABET
+	/* stated bound of the .alpha jobs: specials and the letters of "&lt;" / "&amp;" */
+	for (i = 0; i < VF_XML_SRC_MAX; i ++) {
+		if (i < n)
+			VF_ASSUME(s[i] == '&' || s[i] == '<' || s[i] == '\'' || s[i] == 'l' || s[i] == 't' ||
+			    s[i] == ';' || s[i] == 'a' || s[i] == 'x');
+	}
+#endif
 
 	for (i = 0; i < VF_XML_SRC_MAX; i ++) {
 		if (i < n)
